@@ -214,6 +214,15 @@ pub fn run<T: HS>(cfg: &Cfg, out: &mut Out<T>) {
             }
         }
     }
+    // unit diagonal (for positive variances): corr_aa = 1
+    if corr.shape() == (m + p, m + p) && cfg.usize("corr", 1) == 1 {
+        for a in 0..m + p {
+            out.given("C13.correlation_unit_diagonal", cov[(a, a)], ">", zero);
+        }
+        for a in 0..m + p {
+            out.eq("C13.correlation_unit_diagonal", format!("corr[{a},{a}]"), corr[(a, a)], T::ratio(1, 1));
+        }
+    }
     // confidence band: sigma_i^2 = j_i^T Cov j_i with j_i row i of the UN-weighted Jacobian
     let us = acc::unscaled_sigma(&st);
     out.fact("C14.sigma_len", us.len() == n, format!("{}", us.len()));
